@@ -45,7 +45,11 @@ impl Adapter for BulkheadAd {
             // the `small` preset exactly as shipped: 10 concurrent calls, reject when full
             return json!({"hm": rng.below(4), "max": 10, "wait": 0, "ctor": 2});
         }
-        json!({"hm": rng.below(4), "max": *rng.pick(maxes), "wait": *rng.pick(waits), "ctor": rng.below(2)})
+        let wait = *rng.pick(waits);
+        // ctor 3: a preset customised afterwards (needs an explicit wait); pre: overridden earlier settings
+        let ctor = if wait >= 0 && rng.pct(20) { 3 } else { rng.below(2) };
+        let pre = if wait >= 0 { rng.below(3) } else { 0 };
+        json!({"hm": rng.below(4), "max": *rng.pick(maxes), "wait": wait, "ctor": ctor, "ord": rng.below(6), "pre": pre})
     }
     fn build(&mut self, cfg: &Value, sim: &mut Sim) {
         let max = cfg["max"].as_u64().unwrap() as usize;
@@ -53,28 +57,54 @@ impl Adapter for BulkheadAd {
         let cnt = Arc::new(Counters::default());
         self.cnt = cnt.clone();
         let (c1, c2, c3, c4) = (cnt.clone(), cnt.clone(), cnt.clone(), cnt.clone());
-        let preset = cfg["ctor"].as_u64().unwrap_or(0) == 2;
-        let mut b = if preset { BulkheadLayer::small() } else { BulkheadLayer::builder().max_concurrent_calls(max) };
-        b = b
-            .on_call_permitted(move |cc| {
-                c1.permitted.fetch_add(1, Ordering::SeqCst);
-                c1.last_cc.store(cc, Ordering::SeqCst);
-            })
-            .on_call_rejected(move |_| {
-                c2.rejected.fetch_add(1, Ordering::SeqCst);
-            })
-            .on_call_finished(move |_| {
-                c3.finished.fetch_add(1, Ordering::SeqCst);
-            })
-            .on_call_failed(move |_| {
-                c4.failed.fetch_add(1, Ordering::SeqCst);
-            });
-        if preset {
-            // nothing: the preset's own settings
-        } else if wait == 0 && cfg["ctor"].as_u64().unwrap_or(0) == 1 {
-            b = b.reject_when_full();
-        } else if wait >= 0 {
-            b = b.max_wait_duration(Duration::from_millis(wait as u64));
+        let ctor = cfg["ctor"].as_u64().unwrap_or(0);
+        let preset = ctor == 2;
+        // the options are applied in an order chosen by cfg.ord, with overridden earlier settings when
+        // cfg.pre > 0: a builder's later setting wins, whatever was set before and in whatever order
+        let ord = cfg["ord"].as_u64().unwrap_or(0);
+        let pre = cfg["pre"].as_u64().unwrap_or(0);
+        let mut b = if preset || ctor == 3 { BulkheadLayer::small() } else { BulkheadLayer::builder() };
+        if pre == 1 && !preset {
+            b = b.reject_when_full().max_concurrent_calls(99);
+        } else if pre == 2 && !preset {
+            b = b.max_wait_duration(Duration::from_millis(77)).max_concurrent_calls(max + 1).name("early");
+        }
+        let steps: [[u8; 3]; 6] = [[0, 1, 2], [0, 2, 1], [1, 0, 2], [1, 2, 0], [2, 0, 1], [2, 1, 0]];
+        let mut lis = Some((c1, c2, c3, c4));
+        for st in steps[(ord % 6) as usize] {
+            match st {
+                0 => {
+                    if !preset {
+                        b = b.max_concurrent_calls(max);
+                    }
+                }
+                1 => {
+                    if preset {
+                        // nothing: the preset's own settings
+                    } else if wait == 0 && ctor == 1 {
+                        b = b.reject_when_full();
+                    } else if wait >= 0 {
+                        b = b.max_wait_duration(Duration::from_millis(wait as u64));
+                    }
+                }
+                _ => {
+                    let (c1, c2, c3, c4) = lis.take().unwrap();
+                    b = b
+                        .on_call_permitted(move |cc| {
+                            c1.permitted.fetch_add(1, Ordering::SeqCst);
+                            c1.last_cc.store(cc, Ordering::SeqCst);
+                        })
+                        .on_call_rejected(move |_| {
+                            c2.rejected.fetch_add(1, Ordering::SeqCst);
+                        })
+                        .on_call_finished(move |_| {
+                            c3.finished.fetch_add(1, Ordering::SeqCst);
+                        })
+                        .on_call_failed(move |_| {
+                            c4.failed.fetch_add(1, Ordering::SeqCst);
+                        });
+                }
+            }
         }
         let layer = b.build();
         self.svc = Some(Handles::new(layer.layer(Inner::new(&sim.w)), cfg["hm"].as_u64().unwrap_or(0)));
